@@ -155,7 +155,7 @@ fn c20_body<const N: usize, const M: usize>(mode: Mode) {
     let vm = any_view_mask();
     let im = any_instance_mask();
     let max_samples: i32 = kani::any();
-    kani::assume(max_samples >= 1 && max_samples <= 4);
+    kani::assume((max_samples >= 1 && max_samples <= 4) || max_samples == i32::MAX);
     let take: bool = kani::any();
     let which: u8 = kani::any();
     kani::assume(which < 3);
@@ -344,7 +344,7 @@ fn c20_body<const N: usize, const M: usize>(mode: Mode) {
 
 // @check props=C20 tier=quick
 // @desc read/take on an empty cache: NoData, or BadParameter for an unknown instance handle; nothing changes
-// @bounds 0 stored samples, 2 instances (fully symbolic state), masks = every non-empty subset, max_samples 1..=4, specific handle none/known/unknown, take flag symbolic; unwind 17 (16-byte handle compare)
+// @bounds 0 stored samples, 2 instances (fully symbolic state), masks = every non-empty subset, max_samples 1..=4 or i32::MAX, specific handle none/known/unknown, take flag symbolic; unwind 17 (16-byte handle compare)
 // @assume I1: one InstanceState per handle; reader enabled; neutral QoS (irrelevant for read/take)
 // @enc dcps::dcps_domain_participant::data_reader_entity::DataReaderEntity::create_sample_collection
 // @enc dcps::dcps_domain_participant::data_reader_entity::DataReaderEntity::read
@@ -353,4 +353,78 @@ fn c20_body<const N: usize, const M: usize>(mode: Mode) {
 #[kani::unwind(17)]
 fn c20_read_take_n0() {
     c20_body::<0, 2>(Mode::Main);
+}
+
+// @check props=C20,C22 tier=quick
+// @desc read/take with one stored sample: returned iff it matches the three masks (and the requested instance); read marks it READ and keeps it, take removes it; SampleInfo states/counts/valid_data/sample_rank; the instance becomes NOT_NEW and nothing else of any instance changes (C22: read/take never change instance_state or generation counts); NoData iff nothing matches; BadParameter iff the handle is unknown
+// @bounds 1 stored sample over 2 instances (fully symbolic view/instance state and generation counts 0..10^6), all 5 change kinds, masks = every non-empty subset, max_samples 1..=4 or i32::MAX, specific handle none/known/unknown, take flag symbolic; unwind 17 (16-byte handle compare)
+// @assume I1: one InstanceState per handle and every stored sample has one; I2: sample generation counts <= the instance's current counts; reader enabled
+// @enc dcps::dcps_domain_participant::data_reader_entity::DataReaderEntity::create_sample_collection
+// @enc dcps::dcps_domain_participant::data_reader_entity::DataReaderEntity::read
+// @enc dcps::dcps_domain_participant::data_reader_entity::DataReaderEntity::take
+#[kani::proof]
+#[kani::unwind(17)]
+fn c20_read_take_n1() {
+    c20_body::<1, 2>(Mode::Main);
+}
+
+// @check props=C20,C22 tier=quick
+// @desc as c20_read_take_n1 with two stored samples: the returned list is exactly the first max_samples matching samples in storage order, sample_rank per DDS 2.2.2.5.1.9, take leaves the others untouched and in order
+// @bounds 2 stored samples over 2 instances, otherwise as c20_read_take_n1; unwind 17
+// @assume I1: one InstanceState per handle and every stored sample has one; I2: sample generation counts <= the instance's current counts and non-decreasing along the storage order of an instance; reader enabled
+// @enc dcps::dcps_domain_participant::data_reader_entity::DataReaderEntity::create_sample_collection
+// @enc dcps::dcps_domain_participant::data_reader_entity::DataReaderEntity::read
+// @enc dcps::dcps_domain_participant::data_reader_entity::DataReaderEntity::take
+#[kani::proof]
+#[kani::unwind(17)]
+fn c20_read_take_n2() {
+    c20_body::<2, 2>(Mode::Main);
+}
+
+// @check props=C20,C22 tier=thorough timeout=1500
+// @desc as c20_read_take_n2 with three stored samples (max_samples can cut the matching list at 1, 2 or 3)
+// @bounds 3 stored samples over 2 instances, otherwise as c20_read_take_n1; unwind 17
+// @assume I1: one InstanceState per handle and every stored sample has one; I2: sample generation counts <= the instance's current counts and non-decreasing along the storage order of an instance; reader enabled
+// @enc dcps::dcps_domain_participant::data_reader_entity::DataReaderEntity::create_sample_collection
+// @enc dcps::dcps_domain_participant::data_reader_entity::DataReaderEntity::read
+// @enc dcps::dcps_domain_participant::data_reader_entity::DataReaderEntity::take
+#[kani::proof]
+#[kani::unwind(17)]
+fn c20_read_take_n3() {
+    c20_body::<3, 2>(Mode::Main);
+}
+
+// @check props=C20 tier=quick known=KF-C20-1
+// @desc generation_rank and absolute_generation_rank of every returned sample equal the DDS definitions (2.2.2.5.1.10/11) computed from the samples' own generation counts -- restricted to the trigger of KF-C20-1 (expected to fail)
+// @bounds 2 stored samples over 2 instances, otherwise as c20_read_take_n1; unwind 17
+// @assume trigger KF-C20-1: some returned sample's own disposed+no_writers generation count differs from the number of not-alive->alive transitions among the returned samples of its instance up to it
+// @assume I1, I2 as c20_read_take_n2; known instance handle; at least one sample matches
+// @enc dcps::dcps_domain_participant::data_reader_entity::DataReaderEntity::create_sample_collection
+#[kani::proof]
+#[kani::unwind(17)]
+fn c20_ranks_n2__known() {
+    c20_body::<2, 2>(Mode::RanksKnown);
+}
+
+// @check props=C20 tier=quick
+// @desc generation_rank and absolute_generation_rank of every returned sample equal the DDS definitions (2.2.2.5.1.10/11) whenever the trigger of KF-C20-1 does not hold
+// @bounds 2 stored samples over 2 instances, otherwise as c20_read_take_n1; unwind 17
+// @assume negation of trigger KF-C20-1: every returned sample's own disposed+no_writers generation count equals the number of not-alive->alive transitions among the returned samples of its instance up to it
+// @assume I1, I2 as c20_read_take_n2; known instance handle; at least one sample matches
+// @enc dcps::dcps_domain_participant::data_reader_entity::DataReaderEntity::create_sample_collection
+#[kani::proof]
+#[kani::unwind(17)]
+fn c20_ranks_n2__rest() {
+    c20_body::<2, 2>(Mode::RanksRest);
+}
+
+// @check props=C20 tier=thorough timeout=1500
+// @desc as c20_ranks_n2__rest with three stored samples
+// @bounds 3 stored samples over 2 instances, otherwise as c20_read_take_n1; unwind 17
+// @assume negation of trigger KF-C20-1 (see c20_ranks_n2__rest); I1, I2; known instance handle; at least one sample matches
+// @enc dcps::dcps_domain_participant::data_reader_entity::DataReaderEntity::create_sample_collection
+#[kani::proof]
+#[kani::unwind(17)]
+fn c20_ranks_n3__rest() {
+    c20_body::<3, 2>(Mode::RanksRest);
 }
